@@ -296,7 +296,8 @@ def layout_parts(toks, rng, version):
                 sep = rng.choice(['  ', '\t', '\n', ' \n ', '\r\n'])
             elif version != '1.0':
                 pieces = [rng.choice([' (: c :) ', '(: x (: nested :) y :)', ' (::) ', '\n(: a\nb :)\n', '(: c :)',
-                                      '(: a (: b :) c (: d :) e :)', '(:(::)(::):)', '(: (: (: deep :) :) (: x :) :)'])
+                                      '(: a (: b :) c (: d :) e :)', '(:(::)(::):)', '(: (: (: deep :) :) (: x :) :)',
+                                      "(: it's :)", '(: say "hi :)', '(: x::)', '(:::)', "(: 'a' + \"b\" :)", '(: a:b ::c :)'])
                           for _ in range(rng.choice([1, 1, 2, 3]))]
                 sep = rng.choice(['', ' ', '\n', '  ']).join(pieces)
                 if not tight_ok:
